@@ -158,7 +158,7 @@ def run(ctx, only=None):
             ctx.sample(s)
         for f in obs['failures']:
             ctx.violation(f'{f["kind"]}|{f["cls"]}', f'{f["cell"]}: {f["kind"]}: {f["detail"]}', dict(patterns=[f['pattern']]))
-    if not only and calls < 20000:
+    if not only and calls < 20000 and not ctx.violations:
         raise HarnessError(f'C19 exploration collapsed: {calls} helper calls')
     ctx.extra['bound'] = f'pattern depth <= {4 if ctx.thorough else 3} segments'
     ctx.assume('multi-pattern resources: only the first pattern has helpers (upstream convention); not in this space')
